@@ -81,9 +81,7 @@ func calleeInlinable(pk *packages.Package, fd *ast.FuncDecl) string {
 	if fd.Body == nil {
 		return "no body"
 	}
-	if fd.Type.TypeParams != nil && len(fd.Type.TypeParams.List) > 0 {
-		return "generic"
-	}
+	// a generic function is inlined with its type parameters replaced by the type arguments of the call
 	if fd.Recv != nil {
 		if _, isIdx := fd.Recv.List[0].Type.(*ast.IndexExpr); isIdx {
 			return "generic receiver"
@@ -315,8 +313,8 @@ func normalizeNewHelpers(p *Program, ref []invEntry) map[string][]byte {
 }
 
 // typeExprFor spells t in file f of package pk ("" when impossible).
-func typeExprFor(pk *packages.Package, f *ast.File, t types.Type) string {
-	okAll := true
+func typeExprFor(pk *packages.Package, f *ast.File, t types.Type, scope *types.Scope, pos token.Pos) string {
+	okAll := !typeNamesShadowed(pk, t, scope, pos, 0)
 	imports := map[string]string{} // path -> local name
 	for _, is := range f.Imports {
 		path := strings.Trim(is.Path.Value, `"`)
@@ -356,6 +354,36 @@ func inlineSite(p *Program, pk *packages.Package, f *ast.File, call *ast.CallExp
 	tfile := fset.File(f.Pos())
 	txt := func(n ast.Node) string { return string(src[tfile.Offset(n.Pos()):tfile.Offset(n.End())]) }
 	sig := obj.Type().(*types.Signature)
+	var tparamSubst map[*types.TypeName]string // type parameter -> spelling of its argument at this call
+	if sig.TypeParams().Len() > 0 {
+		var fid *ast.Ident
+		switch fun := ast.Unparen(call.Fun).(type) {
+		case *ast.Ident:
+			fid = fun
+		case *ast.IndexExpr:
+			fid, _ = fun.X.(*ast.Ident)
+		case *ast.IndexListExpr:
+			fid, _ = fun.X.(*ast.Ident)
+		}
+		inst, ok := pk.TypesInfo.Instances[fid]
+		if fid == nil || !ok || inst.TypeArgs.Len() != sig.TypeParams().Len() {
+			return textEdit{}, "generic call whose type arguments are not recorded"
+		}
+		isig, ok := inst.Type.(*types.Signature)
+		if !ok {
+			return textEdit{}, "generic instance is not a function"
+		}
+		tparamSubst = map[*types.TypeName]string{}
+		sc0 := pk.Types.Scope().Innermost(call.Pos())
+		for i := 0; i < sig.TypeParams().Len(); i++ {
+			ts := typeExprFor(pk, f, inst.TypeArgs.At(i), sc0, call.Pos())
+			if ts == "" {
+				return textEdit{}, "type argument cannot be spelled in the caller's file"
+			}
+			tparamSubst[sig.TypeParams().At(i).Obj()] = "(" + ts + ")"
+		}
+		sig = isig
+	}
 	if len(call.Args) != sig.Params().Len() || call.Ellipsis.IsValid() {
 		return textEdit{}, "argument count / spread call"
 	}
@@ -414,10 +442,11 @@ func inlineSite(p *Program, pk *packages.Package, f *ast.File, call *ast.CallExp
 		return textEdit{}, "statement is not in a statement list"
 	}
 	pre := fmt.Sprintf("_inl%d_", n)
+	callScope := pk.Types.Scope().Innermost(call.Pos())
 	// result temporaries
 	var resNames, resTypes []string
 	for i := 0; i < sig.Results().Len(); i++ {
-		ts := typeExprFor(pk, f, sig.Results().At(i).Type())
+		ts := typeExprFor(pk, f, sig.Results().At(i).Type(), callScope, call.Pos())
 		if ts == "" {
 			return textEdit{}, "result type cannot be spelled in the caller's file"
 		}
@@ -498,9 +527,10 @@ func inlineSite(p *Program, pk *packages.Package, f *ast.File, call *ast.CallExp
 			return textEdit{}, "method call form"
 		}
 		rt := sig.Recv().Type()
-		ts := typeExprFor(pk, f, rt)
+		ts := typeExprFor(pk, f, rt, callScope, call.Pos())
+		recvUntyped := false
 		if ts == "" {
-			return textEdit{}, "receiver type cannot be spelled"
+			recvUntyped = true
 		}
 		arg := txt(se.X)
 		at := pk.TypesInfo.TypeOf(se.X)
@@ -511,6 +541,10 @@ func inlineSite(p *Program, pk *packages.Package, f *ast.File, call *ast.CallExp
 			arg = "&(" + arg + ")"
 		case !wantPtr && havePtr:
 			arg = "*(" + arg + ")"
+		}
+		if recvUntyped {
+			// after the address-of / dereference adjustment the expression has exactly the receiver type
+			ts = ""
 		}
 		name := "_"
 		if len(fd.Recv.List[0].Names) == 1 {
@@ -526,9 +560,13 @@ func inlineSite(p *Program, pk *packages.Package, f *ast.File, call *ast.CallExp
 				names = []*ast.Ident{{Name: "_"}}
 			}
 			for _, nm := range names {
-				ts := typeExprFor(pk, f, sig.Params().At(ai).Type())
+				ts := typeExprFor(pk, f, sig.Params().At(ai).Type(), callScope, call.Pos())
 				if ts == "" {
-					return textEdit{}, "parameter type cannot be spelled in the caller's file"
+					at := pk.TypesInfo.TypeOf(call.Args[ai])
+					if at == nil || !types.Identical(at, sig.Params().At(ai).Type()) {
+						return textEdit{}, "parameter type cannot be spelled in the caller's file"
+					}
+					// the argument already has exactly the parameter's type: `tmp := arg` needs no type expression
 				}
 				binds = append(binds, bind{nm.Name, ts, txt(call.Args[ai])})
 				ai++
@@ -572,6 +610,32 @@ func inlineSite(p *Program, pk *packages.Package, f *ast.File, call *ast.CallExp
 	label := pre + "L"
 	thenMarker := pre + "THEN"
 	bodySrc := calleeBodyText(fset, fd)
+	if len(tparamSubst) > 0 {
+		// replace every use of a type parameter inside the body by the spelled type argument
+		tfb := fset.File(fd.Pos())
+		base := tfb.Offset(fd.Body.Pos())
+		type rep struct {
+			a, b int
+			s    string
+		}
+		var reps []rep
+		ast.Inspect(fd.Body, func(nd ast.Node) bool {
+			if id, ok := nd.(*ast.Ident); ok {
+				if tn, ok := pk.TypesInfo.Uses[id].(*types.TypeName); ok {
+					if sp, ok := tparamSubst[tn]; ok {
+						reps = append(reps, rep{tfb.Offset(id.Pos()) - base, tfb.Offset(id.End()) - base, sp})
+					}
+				}
+			}
+			return true
+		})
+		sort.Slice(reps, func(i, j int) bool { return reps[i].a > reps[j].a })
+		for _, rp := range reps {
+			if rp.a >= 0 && rp.b <= len(bodySrc) {
+				bodySrc = bodySrc[:rp.a] + rp.s + bodySrc[rp.b:]
+			}
+		}
+	}
 	nf, err := parser.ParseFile(token.NewFileSet(), "inl.go", "package p\nfunc _() "+bodySrc+"\n", parser.SkipObjectResolution)
 	if err != nil {
 		return textEdit{}, "callee body does not re-parse"
@@ -700,7 +764,11 @@ func inlineSite(p *Program, pk *packages.Package, f *ast.File, call *ast.CallExp
 	var tmpNames, prmNames []string
 	for i, b := range binds {
 		tn := fmt.Sprintf("%sp%d", pre, i)
-		fmt.Fprintf(&out, "var %s %s = %s\n", tn, b.typ, b.arg)
+		if b.typ == "" {
+			fmt.Fprintf(&out, "%s := %s\n", tn, b.arg)
+		} else {
+			fmt.Fprintf(&out, "var %s %s = %s\n", tn, b.typ, b.arg)
+		}
 		fmt.Fprintf(&out, "_ = %s\n", tn)
 		if b.name != "_" {
 			tmpNames = append(tmpNames, tn)
@@ -834,4 +902,64 @@ func thenBodyShadowed(pk *packages.Package, then *ast.BlockStmt, fd *ast.FuncDec
 		return true
 	})
 	return bad
+}
+
+
+// typeNamesShadowed: some type name (or package qualifier) needed to spell t means something else at pos.
+func typeNamesShadowed(pk *packages.Package, t types.Type, scope *types.Scope, pos token.Pos, depth int) bool {
+	if scope == nil || depth > 8 {
+		return false
+	}
+	switch x := types.Unalias(t).(type) {
+	case *types.Named:
+		o := x.Obj()
+		if o.Pkg() == nil {
+			return false
+		}
+		if o.Pkg() == pk.Types {
+			_, at := scope.LookupParent(o.Name(), pos)
+			if at != types.Object(o) {
+				return true
+			}
+		} else {
+			_, at := scope.LookupParent(o.Pkg().Name(), pos)
+			if pn, ok := at.(*types.PkgName); !ok || pn.Imported() != o.Pkg() {
+				// may still be imported under another name: typeExprFor deals with names; a non-package object of that name shadows it
+				if at != nil {
+					if _, isPkg := at.(*types.PkgName); !isPkg {
+						return true
+					}
+				}
+			}
+		}
+		if ta := x.TypeArgs(); ta != nil {
+			for i := 0; i < ta.Len(); i++ {
+				if typeNamesShadowed(pk, ta.At(i), scope, pos, depth+1) {
+					return true
+				}
+			}
+		}
+	case *types.Pointer:
+		return typeNamesShadowed(pk, x.Elem(), scope, pos, depth+1)
+	case *types.Slice:
+		return typeNamesShadowed(pk, x.Elem(), scope, pos, depth+1)
+	case *types.Array:
+		return typeNamesShadowed(pk, x.Elem(), scope, pos, depth+1)
+	case *types.Map:
+		return typeNamesShadowed(pk, x.Key(), scope, pos, depth+1) || typeNamesShadowed(pk, x.Elem(), scope, pos, depth+1)
+	case *types.Chan:
+		return typeNamesShadowed(pk, x.Elem(), scope, pos, depth+1)
+	case *types.Signature:
+		for i := 0; i < x.Params().Len(); i++ {
+			if typeNamesShadowed(pk, x.Params().At(i).Type(), scope, pos, depth+1) {
+				return true
+			}
+		}
+		for i := 0; i < x.Results().Len(); i++ {
+			if typeNamesShadowed(pk, x.Results().At(i).Type(), scope, pos, depth+1) {
+				return true
+			}
+		}
+	}
+	return false
 }
